@@ -144,6 +144,12 @@ def run_one_group(repo, prop, gname, g, tier, log):
     except subprocess.TimeoutExpired as e:
         out, rc = (e.stdout.decode() if isinstance(e.stdout, bytes) else (e.stdout or "")) + "\nGROUP TIMEOUT", -9
     wall = time.time() - t0
+    try:
+        os.makedirs(os.path.join(ROOT, "scratch", "logs"), exist_ok=True)
+        with open(os.path.join(ROOT, "scratch", "logs", "kani_%s_%s.log" % (gname, prop)), "w") as fh:
+            fh.write(" ".join(cmd) + "\n" + out)
+    except OSError:
+        pass
     js = None
     if os.path.exists(out_json):
         try:
@@ -162,8 +168,8 @@ def run_one_group(repo, prop, gname, g, tier, log):
     if js:
         for r in js.get("verification_results", {}).get("results", []):
             by_id[r["harness_id"]] = r
-        pd = {x["harness_id"]: x["property_details"] for x in js.get("property_details", [])}
-        cb = {x["harness_id"]: x.get("cbmc_stats", {}) for x in js.get("cbmc", [])}
+        pd = {x["harness_id"]: (x.get("property_details") or {}) for x in js.get("property_details", [])}
+        cb = {x["harness_id"]: (x.get("cbmc_stats") or {}) for x in js.get("cbmc", [])}
     else:
         pd, cb = {}, {}
     for h in harnesses:
@@ -183,7 +189,7 @@ def run_one_group(repo, prop, gname, g, tier, log):
             results.append(res)
             continue
         r = by_id[hid]
-        d = pd.get(hid, {})
+        d = pd.get(hid) or {}
         d = {k: (v or 0) for k, v in d.items()}
         tot = d.get("total_properties", 0)
         failed = d.get("failed", 0)
@@ -193,7 +199,7 @@ def run_one_group(repo, prop, gname, g, tier, log):
         if h.get("should_panic") and r.get("status") == "Success":
             # a should_panic harness is one obligation: the expected panic is reachable
             res["obligations"] = res["discharged"] = 1
-        res["solver_s"] = cb.get(hid, {}).get("runtime_decision_procedure_s")
+        res["solver_s"] = (cb.get(hid) or {}).get("runtime_decision_procedure_s")
         res["harnesses"] = [{"name": h["name"], "checks": tot, "status": r.get("status"), "unreachable": d.get("unreachable"),
                              "covers_satisfied": d.get("satisfied")}]
         if h.get("covers") is not None and d.get("satisfied", 0) < h["covers"]:
